@@ -162,6 +162,23 @@ def body(ctx):
             specs.append(dict(seed=ctx.seed + 200 + k, maxdata=4096, rid='plus', frag='whole',
                               ops=[dict(api='push', src='dir', files=files, cwd=cwd, path='/sdcard/dir%d' % k, mtime=77)]))
             labels.append('directory cwd=%s' % cwd)
+    # the same object connected first to a 1 MiB peer, then to a legacy 4 KiB peer (and the other way round)
+    for (md1, md2) in ((1024 * 1024, 4096), (4096, 1024 * 1024), (65536, 4097)):
+        k += 1
+        specs.append(dict(seed=ctx.seed + 400 + k, maxdata=md1, rid='plus', frag='whole',
+                          ops=[dict(api='push', size=200000, src='bytesio', path='/a', mtime=3), dict(api='reconnect', maxdata=md2, close_first=bool(k % 2)),
+                               dict(api='push', size=150000, src='bytesio', path='/b', mtime=4)]))
+        labels.append('reconnect %d -> %d' % (md1, md2))
+    for path in ('/sdcard/caf\xe9.txt', '/\u20ac/\u00fc' + 'x' * 50, '/sdcard/\U0001F600'):
+        for src in ('bytesio', 'dir'):
+            k += 1
+            op = dict(api='push', size=5000, src='bytesio', path=path, mtime=9) if src == 'bytesio' else dict(api='push', src='dir', files=[('caf\xe9.bin', 300), ('plain', 10)], cwd='elsewhere', path=path, mtime=9)
+            specs.append(dict(seed=ctx.seed + 500 + k, maxdata=4096, rid='plus', frag='whole', ops=[op]))
+            labels.append('non-ASCII device path')
+    for src in ('bytesio', 'path'):
+        k += 1
+        specs.append(dict(seed=ctx.seed + 600 + k, maxdata=4096, rid='plus', frag='whole', ops=[dict(api='push', size=7000, src=src, path='/cbb', mtime=9, cb='raise_base')]))
+        labels.append('callback raising a BaseException')
     for j in range(20 if ctx.quick else 400):
         md = rng.choice([4096, 65536, 262144, 1024 * 1024, rng.randint(4096, 1024 * 1024)])
         chunk = min(65536, md // 2)
